@@ -22,7 +22,7 @@ TIMEOUT = {'quick': 1500, 'thorough': 4 * 3600}
 RULE = ('A case is one input (module index or .mm file) x the set of configurations it was run under. distinct_nontrivial = inputs run under at least two '
         'configurations that produced at least one non-empty file.')
 ASSUMPTIONS = ['fresh subprocess per (batch, hash seed); determinism across machines/Python versions is out of scope']
-FLOORS = {'quick': {'module_inputs': 60, 'nested_axiom_inputs': 20, 'hash_seeds': 8, 'history_cases': 40, 'translate_inputs': 2, 'inputs_with_memoisation': 20, 'mm_multi_var_targets': 10, 'mm_multi_variable_axiom_inputs': 20}}
+FLOORS = {'quick': {'module_inputs': 60, 'nested_axiom_inputs': 20, 'hash_seeds': 8, 'history_cases': 40, 'grown_module_histories': 15, 'translate_inputs': 2, 'inputs_with_memoisation': 20, 'mm_multi_var_targets': 10, 'mm_multi_variable_axiom_inputs': 20}}
 FLOORS['thorough'] = dict(FLOORS['quick'], module_inputs=500, hash_seeds=16, history_cases=300)
 
 MM_SKIP = {'transfer.mm', 'transfer5000.mm', 'transfer-largest-slice.mm', 'disjointness-alt-lemma.mm', 'svm5.mm', 'perceptron.mm', 'impreflex.mm', 'impreflex-compressed.mm'}
@@ -107,6 +107,12 @@ def shard(ctx):
         res = dict(after.get(case, {}), A=res0['A'])
         ctx.count('history_cases')
         ctx.case(('hist', ctx.seed, case), nontrivial=True)
+        if 'A+' in res0 and 'A,A+' in res:
+            ctx.count('grown_module_histories')
+            if res['A,A+'] != res0['A+']:
+                diff = sorted(k for k in set(res0['A+']) | set(res['A,A+']) if res0['A+'].get(k) != res['A,A+'].get(k))
+                ctx.violation('serialize_depends_on_history:A,A+', f'{case}: files {diff} of the extended module differ when the same object had been serialised before it was extended',
+                              {'case': case, 'verif_seed': ctx.seed, 'history': 'A,A+', 'differing': diff})
         for h in ('B,A', 'A,A', 'A,B,A'):
             if res.get(h) != res['A']:
                 diff = sorted(k for k in set(res['A']) | set(res[h]) if res['A'].get(k) != res[h].get(k))
